@@ -244,6 +244,23 @@ BINDINGS = collections.OrderedDict([
     ('lambda-param', ['w = lambda {N}: 0', 'w(1)']),
     ('lambda-kwonly', ['w = lambda *, {N}: 0', 'w']),
     ('lambda-vararg', ['w = lambda *{N}: 0', 'w()']),
+    # an unused import next to a dotted import that IS used: only the dotted import's own top-level name is exempt
+    ('from-import-beside-used-dotted', ['import pk.sub', 'print(pk.sub)', 'from pk import {N}']),
+    ('import-as-beside-used-dotted', ['import pk.sub', 'print(pk.sub)', 'import pk as {N}']),
+    ('dotted-as-beside-used-dotted', ['import pk.sub', 'print(pk.sub)', 'import pk.sub as {N}']),
+    ('from-sub-beside-used-dotted', ['import pk.sub', 'print(pk.sub)', 'from pk.sub import {N}']),
+    ('same-name-module-beside-used-dotted', ['import pk.sub', 'print(pk.sub)', 'from {N} import pk as other', 'print(other)', 'import os as {N}']),
+    # two bindings of one identifier made by ONE statement (same visibility position): two reports
+    ('tuple-dup', ['{N}, {N} = 1, 2']),
+    ('chain-dup', ['{N} = {N} = 1']),
+    ('for-tuple-dup', ['for {N}, {N} in []:', '    pass']),
+    ('with-dup', ['with open("f") as {N}, open("g") as {N}:', '    pass']),
+    ('comp-dup', ['[0 for {N} in [] for {N} in []]']),
+    ('import-dup', ['import os as {N}, sys as {N}']),
+    ('from-import-dup', ['from os import path as {N}, sep as {N}']),
+    ('dotted-dup', ['import {N}.a, {N}.b']),
+    ('def-own-param', ['def {N}({N}):', '    pass']),
+    ('lambda-dup-scope', ['w = lambda {N}: (lambda {N}: 0)', 'w']),
     ('self-param-method', None),      # handled by the method scope itself
 ])
 
